@@ -780,10 +780,48 @@ func (i *interpreter) format(f value, args []value, wrapped *[]value) (res value
 		return symStr{cases: out}
 	}
 	nat := make([]interface{}, len(args))
+	verbs := formatVerbs(fs)
 	for k, a := range args {
+		if k < len(verbs) && !strings.ContainsRune("svqxXw", verbs[k]) {
+			// fmt calls Error()/String() only for verbs that are valid for strings; %d of a named integer with a String
+			// method prints the number
+			if it, ok := a.(iface); ok && it.t != nil {
+				nat[k] = i.nativeArg(it.v)
+				continue
+			}
+		}
 		nat[k] = i.nativeArg(a)
 	}
 	return fmt.Sprintf(strings.ReplaceAll(fs, "%w", "%v"), nat...)
+}
+
+// formatVerbs returns the verb of each operand of a format string, in order (explicit argument indexes are not
+// supported and yield no information).
+func formatVerbs(fs string) []rune {
+	var out []rune
+	for k := 0; k < len(fs); k++ {
+		if fs[k] != '%' {
+			continue
+		}
+		k++
+		for k < len(fs) && strings.ContainsRune("+-# 0123456789.*", rune(fs[k])) {
+			if fs[k] == '*' {
+				out = append(out, 'd')
+			}
+			k++
+		}
+		if k >= len(fs) {
+			break
+		}
+		if fs[k] == '[' {
+			return nil
+		}
+		if fs[k] == '%' {
+			continue
+		}
+		out = append(out, rune(fs[k]))
+	}
+	return out
 }
 
 func (i *interpreter) namedType(pkgPath, name string) types.Type {
